@@ -26,6 +26,7 @@
 (*                                 cells of the job merged last (seeded change C12-r2m1)             *)
 (*   Variant = "impl_r1only_read2" read1_only rejects only records flagged read 2: unpaired records   *)
 (*                                 (neither mate flag) are counted (seeded change C12-r3m1)          *)
+(*   Variant = "impl_ignore_qcfail" ignore_qcfail taken from kwargs['ignore_mp'] (seeded change C12-r4m2)              *)
 (*   Variant = "impl_no_precond"   records whose site is farther than mfs from the alignment are    *)
 (*                                 admitted: shows that the precondition is necessary               *)
 (*                                                                                                 *)
@@ -53,7 +54,7 @@ Contigs == SeqSet(ContigNames)
 (* P-level *)
 Qualifies(r, c) == /\ r.r1 /\ ~r.qcfail /\ (c.dedup => ~r.dup)
                    /\ r.mapq >= c.minmq
-                   /\ r.mp \in {"", "unique"}
+                   /\ (c.kwargs = "ignore_mp" \/ r.mp \in {"", "unique"})      \* kwargs={'ignore_mp': True}: mappability tag not consulted
 (* the statement's (implicit) domain: the site is a coordinate of the contig, and lies within the maximum
    fragment size of the record's alignment (otherwise no bin contains it / the fragment is longer than allowed) *)
 InPrecondition(r, c, len) == /\ 0 <= r.site /\ r.site < len
@@ -85,9 +86,9 @@ Fetched(recs, j, c) == SelectSeq(recs, LAMBDA r : r.file = j.file /\ r.contig = 
 (* read_counts(read, min_mq, dedup, read1_only=True, ignore_mp=False) in code order *)
 ReadCounts(r, c) ==
     IF (IF Variant = "impl_r1only_read2" THEN r.paired /\ ~r.r1 ELSE ~r.r1) THEN FALSE      \* not read.is_read1
-    ELSE IF r.qcfail THEN FALSE
+    ELSE IF r.qcfail /\ ~(Variant = "impl_ignore_qcfail" /\ c.kwargs = "ignore_mp") THEN FALSE      \* ignore_qcfail is never set
     ELSE IF c.dedup /\ r.dup THEN FALSE
-    ELSE IF r.mp # "" /\ r.mp # "unique" THEN FALSE
+    ELSE IF c.kwargs # "ignore_mp" /\ r.mp # "" /\ r.mp # "unique" THEN FALSE
     ELSE IF r.mapq < c.minmq THEN FALSE
     ELSE TRUE
 
@@ -132,8 +133,9 @@ SerialResult(recs, c) ==
 
 ---------------------------------------------------------------------------------------------------
 (* record universe of the bounded model: sites everywhere, alignments at the extreme offsets *)
-Kinds == { "unpaired", "good", "dup", "qcfail", "notr1", "lowmq", "mp_multi", "good_s2", "good_k2", "mp_unique" }
-SampleOf(kind, f) == (IF kind = "good_s2" THEN "s2" ELSE "s1") \o (IF f = 1 THEN "" ELSE "_lib" \o ToString(f))
+Kinds == { "nosm", "unpaired", "good", "dup", "qcfail", "notr1", "lowmq", "mp_multi", "good_s2", "good_k2", "mp_unique" }
+(* sample "" = the record has no SM tag: it belongs to no cell (the code books it under a placeholder column) *)
+SampleOf(kind, f) == IF kind = "nosm" THEN "" ELSE (IF kind = "good_s2" THEN "s2" ELSE "s1") \o (IF f = 1 THEN "" ELSE "_lib" \o ToString(f))
 MkRec(cn, site, rstart, kind, f) ==
     [file |-> f, contig |-> cn, site |-> site, rstart |-> rstart, rend |-> rstart + 2,
      sample |-> SampleOf(kind, f), r1 |-> kind \notin {"notr1", "unpaired"}, paired |-> kind # "unpaired", dup |-> kind = "dup",
